@@ -208,7 +208,8 @@ Definition oracle (c : rcall) (o : robs) : bool :=
   | KSubVal a b => int_is (clamp (a - b)) o
   | KMulVal a b => int_is (clamp (a * b)) o
   | KMulValRatio a r => if fraw_nan r then (match o with OInt z => in_rangeb z | _ => false end)
-                        else int_is (mulValRatio_spec a (cf r)) o
+                        else if a =? 0 then int_is 0 o   (* 0 * inf: the zero shortcut of the code *)
+                        else f_valid (f_mul (f_of_Z a) (cf r)) && int_is (mulValRatio_spec a (cf r)) o
   | KParse s milli =>
       let t := trim_space (cbytes s) in
       match o with
